@@ -31,7 +31,9 @@ def run_case(c):
             # are surrogates of the data the object holds NOW
             # (the in-place normalisation is defined for floating-point data: an integer array is refused
             # by numpy's casting rule - not a wrong result, so that representation skips the stage)
-            if all(np.std(row) > 0 for row in data) and np.asarray(s.original_data).dtype.kind == "f":
+            # (... and a read-only array cannot be normalised in place either)
+            if all(np.std(row) > 0 for row in data) and np.asarray(s.original_data).dtype.kind == "f" \
+                    and np.asarray(s.original_data).flags.writeable:
                 s.normalize_original_data()
                 o["data_norm"] = enc.arr(s.original_data, 1000)
                 o["n_corr"] = enc.arr(s.correlated_noise_surrogates(), 1000)
